@@ -145,6 +145,11 @@ def run(ctx):
             ctx.require(s == ["job.to_wait", "await", "job.start", "job.run", "await", "store(False)"], "R05.3", "queued-task-order",
                         "wait for the current run to end, start, run(setup) awaited, then clear the flag", q.loc(q.line), detail=str(s),
                         fail="the queued task does %s: the next run is not started strictly after the current one ends, or the flag is cleared too early/never" % s)
+        mk5 = ctx.anchor_fn("R05.3", "watchexec_cli::config::make_config")
+        qi = [pathx.desc(st["i"]) for st in thir.walk(thir.root(mk5)) if isinstance(st, dict) and st.get("k") == "let" and st["p"].get("k") == "bind" and st["p"].get("n") == "queued"
+              and isinstance(st.get("i"), dict)]
+        ctx.require(qi == ["Arc::new(Atomic::new(False))"] or qi == ["Arc::new(AtomicBool::new(False))"], "R05.3", "queued-starts-false", "the `a start is already queued` flag starts as false",
+                    mk5.loc(mk5.line), detail=str(qi), fail="the queue flag does not start as false (%s): in queue mode no follow-up run is ever scheduled" % qi)
         first = table.get(("running", "Queue", "first"))
         if first:
             sp = [e for e in first[1].ev if e[0] == "closure"]
